@@ -1,4 +1,3 @@
 package memefish
 
 // placeholders until the corresponding harness files exist
-func verifC18(x string, entry int)       {}
